@@ -924,13 +924,13 @@ def generate(ctx):
         yield c
     for c in gen_exhaustive(ctx, ctx.pick(1, 16)):
         yield c
-    for c in gen_random_stmt(ctx, ctx.pick(3000, 60000)):
+    for c in gen_random_stmt(ctx, ctx.pick(3000, 50000)):
         yield c
-    for c in gen_random_expr(ctx, ctx.pick(2500, 50000)):
+    for c in gen_random_expr(ctx, ctx.pick(2500, 40000)):
         yield c
     for c in gen_alt(ctx, ctx.pick(300, 3000)):
         yield c
-    for c in gen_soup(ctx, ctx.pick(3000, 40000)):
+    for c in gen_soup(ctx, ctx.pick(3000, 30000)):
         yield c
 
 
@@ -1031,16 +1031,31 @@ def run_impl(case):
             'nontrivial': nops >= 2 or compound, 'key': text, 'stats': stats}
 
 
-def model_line(case):
+_memo = {}
+
+
+def _built(case):
+    """(tokens, tree, compare-printer flag, tokens as laid out) — computed once per case object in the parent"""
+    k = id(case)
+    hit = _memo.get(k)
+    if hit is not None and hit[0] is case:
+        return hit[1]
     toks, tree, _, cmp_print = build(case)
     _, want = layout(toks, _prng(case), case.get('mode', 0))
+    if len(_memo) > 3 * CHUNK:
+        _memo.clear()
+    _memo[k] = (case, (toks, tree, cmp_print, want))
+    return toks, tree, cmp_print, want
+
+
+def model_line(case):
+    toks, tree, cmp_print, want = _built(case)
     tree_s = tree if (tree is not None and cmp_print) else NONE
     return dumps([S('c07'), tree_s] + [[S(k), l] for k, l in want])
 
 
 def model_obs(case, ans):
-    toks, tree, _, cmp_print = build(case)
-    _, want = layout(toks, _prng(case), case.get('mode', 0))
+    toks, tree, cmp_print, want = _built(case)
     printed, parsed = ans
     if printed == NONE:
         ptoks = [_norm_tok(k, l) for k, l in want]
